@@ -119,7 +119,7 @@ func C10_response_template() {
 			wantProto = "chat"
 		}
 	case 8: // extensions
-		switch vChoose("ext", 4) {
+		switch vChoose("ext", 7) {
 		case 0:
 			extra = append(extra, "Sec-WebSocket-Extensions: permessage-deflate; server_no_context_takeover")
 			wantExt = 1
@@ -131,6 +131,15 @@ func C10_response_template() {
 		case 1:
 			extra = append(extra, "Sec-WebSocket-Extensions: x-ext, x-unknown")
 			valid = false
+		case 4: // the extension that was not offered comes FIRST in the list
+			extra = append(extra, "Sec-WebSocket-Extensions: x-unknown, x-ext")
+			valid = false
+		case 5: // two offered extensions in one list: both are returned, in the server's order
+			extra = append(extra, "Sec-WebSocket-Extensions: x-ext, permessage-deflate; server_no_context_takeover")
+			wantExt = 2
+		case 6: // the same offered name twice, with different parameters: two extensions
+			extra = append(extra, "Sec-WebSocket-Extensions: x-ext; a=1, x-ext; b=2")
+			wantExt = 2
 		case 2:
 			extra = append(extra, "Sec-WebSocket-Extensions: x-ext", "X-Other: 1")
 			wantExt = 1
